@@ -29,6 +29,8 @@ claimed = {
  'C17': ('exploration','script->unspent outpoints from the model vs address multimap, get_address_info and recorded script/value','reference-model oracle'),
  'C18': ('exploration','the real explorer router driven in-process at quiescent points: every inscription, inscribed/runic output, inscribed sat and block on the JSON and recursive routes, all pages, negative sat indices; fields compared with stored entries, the reference model and creation order','response-vs-model oracle'),
  'C19': ('exploration','content, undelegated-content, preview and sat-relative content routes for every inscription under server options {csp origin, decompress, hidden set}; body, content type, encoding rule, CSP on every response, hidden bodies never served, relative content never immutable','response-vs-chain-data oracle'),
+ 'C22': ('exploration','real `ord wallet send/burn/split` rune commands run in-process against the simulated node and the in-process explorer; every broadcast transaction is mined, indexed by the real indexer and settled: recipient amounts, burned deltas, remainders back to the wallet, zero requests rejected','settlement oracle on the real indexer'),
+ 'C23': ('exploration','node-funded wallet commands against a node whose fundrawtransaction picks any unlocked wallet output, trying inscribed and runic outputs first; every input of every broadcast transaction audited against the reference model','adversarial-peer oracle'),
  'C37': ('exploration','fold of the emitted event stream vs the index after every update','history-replay oracle'),
 }
 checks=[]
@@ -60,10 +62,8 @@ pure = {
  'C36':'Settings::merge is a pure function of (options, env map, config file contents)',
 }
 pending = {
- 'C21':'not claimed yet: wallet tier not built (DESIGN §7 C21)',
- 'C22':'not claimed yet: wallet tier not built (DESIGN §7 C22)',
- 'C23':'not claimed yet: wallet tier not built (DESIGN §7 C23)',
- 'C24':'not claimed yet: wallet tier not built (DESIGN §7 C24)',
+ 'C21':'not claimed: batch inscribing (commit/reveal construction, reveal key backup, etching wait) is not driven by the wallet tier yet (DESIGN §14.2)',
+ 'C24':'not claimed: offer creation/acceptance with mutated PSBTs and altered signing replies is not driven by the wallet tier yet (DESIGN §14.2)',
 }
 import sys
 extra = json.load(open('/verif/tools/claims_extra.json')) if False else {}
